@@ -10,6 +10,7 @@ package main
 // Command-level clauses run the real obigrep / obiannotate binaries on the dump directory.
 
 import (
+	"reflect"
 	"bufio"
 	"bytes"
 	"encoding/json"
@@ -1397,6 +1398,51 @@ func (r *c14recorder) runScenario(d *taxDef, shape string, qs []*query, seed int
 			askCmd(r.bindir, dir, q, strconv.Itoa(qi))
 		}
 		emit(q)
+	}
+	// The taxonomy is shared by all the workers of a command: the same library queries are asked again
+	// from several goroutines at once, many times; an answer that differs from the one recorded above is
+	// emitted as one more event (TLC judges it like any other answer).
+	var lib []*query
+	for _, q := range qs {
+		if q.Src != "cmd" && !c14MayFatal[q.Op] && q.Err == "" {
+			lib = append(lib, q)
+		}
+	}
+	if len(lib) > 0 {
+		budget := 150 * time.Millisecond
+		if len(d.Parent) > 1000 {
+			budget = 1200 * time.Millisecond
+		}
+		deadline := time.Now().Add(budget)
+		var wg sync.WaitGroup
+		var emu sync.Mutex
+		deviations := 0
+		for g := 0; g < 8; g++ {
+			wg.Add(1)
+			go func(g int) {
+				defer wg.Done()
+				for round := 0; time.Now().Before(deadline); round++ {
+					for k := range lib {
+						q := lib[(k*7+g*13+round)%len(lib)]
+						c := *q
+						tx := api
+						if q.Src == "dump" {
+							tx = dump
+						}
+						ask(tx, &c)
+						if !reflect.DeepEqual(c.Res, q.Res) || !reflect.DeepEqual(c.S, q.S) || c.Err != q.Err {
+							emu.Lock()
+							if deviations < 5 {
+								emit(&c)
+							}
+							deviations++
+							emu.Unlock()
+						}
+					}
+				}
+			}(g)
+		}
+		wg.Wait()
 	}
 }
 
